@@ -102,3 +102,25 @@ pub fn verif_new_cell(name: Option<String>) -> Result<u64, bool> {
         Err(_) => Err(false),
     }
 }
+
+pub fn verif_link(child: &ActorCell, sup: &ActorCell) -> bool {
+    child.try_link(sup.clone())
+}
+
+pub fn verif_take_children(parent: &ActorCell) -> Vec<ActorCell> {
+    crate::actor::supervision::verif_probe::take_children(parent)
+}
+
+/// None = closed child set
+pub fn verif_children(parent: &ActorCell) -> Option<Vec<ActorCell>> {
+    crate::actor::supervision::verif_probe::children(parent)
+}
+
+pub fn verif_terminate(cell: &ActorCell) {
+    cell.terminate()
+}
+
+/// overwrite the status byte (pre-state construction only)
+pub fn verif_force_status(cell: &ActorCell, s: u8) {
+    cell.inner.status.store(s, std::sync::atomic::Ordering::SeqCst);
+}
